@@ -126,3 +126,79 @@ Proof.
     assert (In (item_at i) its) as Hin by (unfold item_at; apply nth_In; lia).
     split; [apply in_map; auto|]. apply nodes_in_item; auto. exact (wf_keys _ _ _ _ _ Hwf).
 Qed.
+
+(* ----------------------------------------------------- apply_diff (diff from to), all cases *)
+
+Lemma built_unmounts : forall its, built (map (fun it => EvUnmount (it_key it) (it_gen it)) its) = [].
+Proof. intros. apply built_nil. intros e He. apply in_map_iff in He. destruct He as [it [<- _]]. exact I. Qed.
+
+Lemma diff_from_empty : forall to,
+  d_clear (diff [] to) = false /\ d_removed (diff [] to) = [] /\
+  d_added (diff [] to) = append_adds 0 (length to) /\
+  unpack_moves (diff [] to) = ([], append_adds 0 (length to)).
+Proof.
+  intros to. destruct to as [|t0 to'].
+  - repeat split; reflexivity.
+  - repeat split; try reflexivity.
+    unfold diff, unpack_moves. cbn [d_items_to_move d_added d_removed d_moved].
+    rewrite unpack_loop_spec; [reflexivity|constructor|]. cbn [total fold_right length]. lia.
+Qed.
+
+Theorem apply_diff_props : forall pre post mk to m its next gen,
+  1 <= m -> wf_items pre post mk next its -> NoDup to ->
+  apply_props pre post mk to its next gen
+    (apply_diff m mk (diff (map it_key its) to) to (start pre post mk its next gen)).
+Proof.
+  intros pre post mk to m its next gen Hm Hwf Hto.
+  destruct its as [|it0 its'] eqn:Eits.
+  - (* from the empty list: every key is appended *)
+    set (n := length to).
+    assert (diff_loop [] to (Nat.max (length (@nil N)) (length to)) 0 0 0 None = ([], [], normal_adds 0 n)) as El.
+    { cbn [length Nat.max]. apply diff_loop_from_empty. reflexivity. }
+    pose proof (diff_loop_spec [] to Hto (Nat.max (length (@nil N)) (length to)) 0 0 0 None _ _ _
+                  (Nat.le_refl _) El) as LS.
+    pose proof (apply_general_props pre post mk to m Hm [] next gen Hwf Hto _ _ _ LS) as P.
+    cbv zeta in P. unfold apply_props. cbv zeta. cbn [map] in *.
+    assert (apply_diff m mk (diff [] to) to (start pre post mk [] next gen)
+            = apply_general mk m [] [] (normal_adds 0 n) to (start pre post mk [] next gen)) as ->; [|exact P].
+    destruct (diff_from_empty to) as [F1 [F2 [F3 F4]]]. fold n in F3, F4.
+    rewrite (apply_diff_general mk m _ [] [] (append_adds 0 n)); auto.
+    unfold apply_general. cbn [fold_left enumerate_from]. unfold append_adds, normal_adds.
+    rewrite !map_length. fold (append_adds 0 n). fold (normal_adds 0 n).
+    rewrite fold_append_normal; [reflexivity|].
+    intros j it _ Hc. cbn [with_children w_children start map app] in Hc.
+    apply nth_error_In in Hc. apply repeat_spec in Hc. discriminate.
+  - destruct to as [|t0 to'] eqn:Eto.
+    + (* clear *)
+      rewrite <- Eits in *. assert (diff (map it_key its) [] =
+        {| d_removed := []; d_moved := []; d_items_to_move := 0; d_added := []; d_clear := true |}) as ->.
+      { rewrite Eits. reflexivity. }
+      unfold apply_diff. cbn [d_clear d_added andb].
+      destruct (fold_step_clear its (start pre post mk its next gen)) as [C [D [L [Nx [G P]]]]].
+      cbn [start w_children] in C, D, L, Nx, G, P |- *.
+      unfold apply_props. cbv zeta. cbn [with_children w_children w_dom w_log w_next w_gen w_panic somes map flat_map].
+      rewrite D, L, Nx, G, P. cbn [start w_dom w_log w_next w_gen w_panic app].
+      rewrite (unmount_all pre post mk next its Hwf). rewrite built_unmounts.
+      split; [reflexivity|]. split; [reflexivity|]. split; [reflexivity|].
+      split; [eapply wf_sibs; eauto|]. split; [lia|]. split; [lia|].
+      split; [intros it _ []|]. split; [intros it []|].
+      split; [intros it Hit _; apply in_map_iff; exists it; auto|].
+      split; [constructor|]. split; [intros k; split; [intros []|intros [[] _]]|].
+      split.
+      * intros k g i Hc. apply in_map_iff in Hc. destruct Hc as [it [E _]]. discriminate.
+      * intros it i j _ Hc. discriminate.
+    + (* the general case *)
+      rewrite <- Eits, <- Eto in *.
+      assert (map it_key its <> []) as Hf by (rewrite Eits; discriminate).
+      assert (to <> []) as Ht by (rewrite Eto; discriminate).
+      destruct (diff_loop (map it_key its) to (Nat.max (length (map it_key its)) (length to)) 0 0 0 None)
+        as [[r ms] a] eqn:El.
+      pose proof (diff_loop_spec (map it_key its) to Hto
+                    (Nat.max (length (map it_key its)) (length to)) 0 0 0 None _ _ _
+                    (Nat.le_refl _) El) as LS.
+      assert (Forall (fun mv => m_len mv = 1) ms) as Hl.
+      { eapply Forall_impl; [|exact (ls_mv_ok _ _ _ _ _ _ _ _ LS)]. intros mv [H _]. exact H. }
+      destruct (unpack_diff _ _ _ _ _ Hf Ht El Hl) as [U1 [U2 [U3 U4]]].
+      rewrite (apply_diff_general mk m _ r ms a); auto.
+      exact (apply_general_props pre post mk to m Hm its next gen Hwf Hto _ _ _ LS).
+Qed.
